@@ -204,8 +204,6 @@ def enum_configs(nq: int, all_limits: bool):
 def _direct_chunk(arg):
     """Direct construction with a parsec-shaped queue config."""
     universe, names, desc, nq, all_limits, part, nparts = arg
-    from cylc.flow.parsec.OrderedDict import OrderedDictWithDefaults
-    from cylc.flow.task_queues.independent import IndepQueueManager
     fams = UNIVERSES[universe][0]
     n = 0
     outcomes = set()
@@ -213,21 +211,9 @@ def _direct_chunk(arg):
     for i, (queues, dlimit) in enumerate(enum_configs(nq, all_limits)):
         if i % nparts != part:
             continue
-        qcfg = OrderedDictWithDefaults()
-        d = OrderedDictWithDefaults()
-        d['limit'] = dlimit
-        d['members'] = []
-        qcfg['default'] = d
-        for qn, lim, mem in queues:
-            e = OrderedDictWithDefaults()
-            e['limit'] = lim
-            e['members'] = list(mem)
-            qcfg[qn] = e
-        mgr = IndepQueueManager(
-            qcfg, list(names), {k: set(v) for k, v in desc.items()})
         n += 1
         outcomes.add(tuple(sorted(static_owner(fams, queues).items())))
-        for sig, what in judge_manager(mgr, fams, queues, dlimit):
+        for sig, what in _direct_one(universe, names, desc, queues, dlimit):
             if len(bad) < 50:
                 bad.append((sig, what, {
                     'leg': 'static', 'mode': 'direct', 'universe': universe,
@@ -239,20 +225,15 @@ def _direct_chunk(arg):
 def _config_chunk(arg):
     """Whole real path: flow.cylc -> WorkflowConfig -> IndepQueueManager."""
     universe, items, scratch = arg
-    from cylc.flow.task_queues.independent import IndepQueueManager
     fams = UNIVERSES[universe][0]
     n = 0
     outcomes = set()
     bad = []
     for queues, dlimit, dpos in items:
-        cfg = _load_config(universe, queues, dlimit, scratch, dpos)
-        mgr = IndepQueueManager(
-            cfg.cfg['scheduling']['queues'], cfg.get_task_name_list(),
-            cfg.runtime['descendants'])
         n += 1
         outcomes.add(tuple(sorted(static_owner(fams, queues).items())))
-        eff = dlimit if dpos is not None else 100
-        for sig, what in judge_manager(mgr, fams, queues, eff):
+        for sig, what in _config_one(universe, queues, dlimit, dpos,
+                                     scratch):
             if len(bad) < 50:
                 bad.append((sig, what, {
                     'leg': 'static', 'mode': 'config', 'universe': universe,
@@ -282,9 +263,7 @@ def run_static(ctx: Ctx):
     # direct construction: every membership assignment
     for universe in ('flat',):
         names, desc = _base(universe, scratch)
-        if sorted(names) != list(TASKS) or not (
-                set(UNIVERSES[universe][0]['F']) | {'F'} >= set()
-                and desc.get('F') is not None):
+        if sorted(names) != list(TASKS) or desc.get('F') != {'c', 'd'}:
             raise HarnessError(f'static universe broken: {names} {desc}')
         for nq in (1, 2, 3):
             all_limits = nq < 3 or ctx.tier == 'thorough'
@@ -344,22 +323,35 @@ def replay_static(payload):
     queues = tuple((q[0], q[1], tuple(q[2])) for q in payload['queues'])
     fams = UNIVERSES[universe][0]
     if payload['mode'] == 'config':
-        cfg = _load_config(universe, queues, payload['dlimit'], scratch,
-                           payload.get('dpos'))
-        mgr = IndepQueueManager(
-            cfg.cfg['scheduling']['queues'], cfg.get_task_name_list(),
-            cfg.runtime['descendants'])
-        eff = payload['dlimit'] if payload.get('dpos') is not None else 100
+        res = _config_one(universe, queues, payload['dlimit'],
+                          payload.get('dpos'), scratch)
     else:
         names, desc = _base(universe, scratch)
         res = _direct_one(universe, names, desc, queues, payload['dlimit'])
-        return [Violation(s, w, payload) for s, w in res
-                if s == payload['signature']] or [
-            Violation(s, w, payload) for s, w in res]
-    res = judge_manager(mgr, fams, queues, eff)
     return [Violation(s, w, payload) for s, w in res
             if s == payload['signature']] or [
         Violation(s, w, payload) for s, w in res]
+
+
+def _raised(exc) -> List[Tuple[str, str]]:
+    return [(f'manager-construction-raises:{type(exc).__name__}',
+             f'IndepQueueManager could not be built for a valid queue '
+             f'configuration: {type(exc).__name__}: {exc}')]
+
+
+def _config_one(universe, queues, dlimit, dpos, scratch):
+    """flow.cylc text -> WorkflowConfig -> IndepQueueManager (as TaskPool
+    does) -> judgement."""
+    from cylc.flow.task_queues.independent import IndepQueueManager
+    cfg = _load_config(universe, queues, dlimit, scratch, dpos)
+    try:
+        mgr = IndepQueueManager(
+            cfg.cfg['scheduling']['queues'], cfg.get_task_name_list(),
+            cfg.runtime['descendants'])
+    except Exception as exc:     # noqa
+        return _raised(exc)
+    eff = dlimit if dpos is not None else 100
+    return judge_manager(mgr, UNIVERSES[universe][0], queues, eff)
 
 
 def _direct_one(universe, names, desc, queues, dlimit):
@@ -375,8 +367,11 @@ def _direct_one(universe, names, desc, queues, dlimit):
         e['limit'] = lim
         e['members'] = list(mem)
         qcfg[qn] = e
-    mgr = IndepQueueManager(
-        qcfg, list(names), {k: set(v) for k, v in desc.items()})
+    try:
+        mgr = IndepQueueManager(
+            qcfg, list(names), {k: set(v) for k, v in desc.items()})
+    except Exception as exc:     # noqa
+        return _raised(exc)
     return judge_manager(mgr, UNIVERSES[universe][0], queues, dlimit)
 
 
